@@ -330,6 +330,9 @@ def run(ctx):
         if r.get("table_extent") is None and r.get("index_extent") is not None and "lit" not in r and r["status"] == "ok":
             ptr_req.setdefault((r["fn"], r["table"]), set()).add(r["index_extent"])
     ffi.rule_extent(ctx, "C09.FFI-EXTENT", I, ptr_req)
+    # the recorded times (not the requested ones) are what a saved trajectory carries
+    from . import c12
+    c12.rule_traj(ctx, ctx.py, "C09.TRAJ")
     from .. import lints
     lints.run(ctx, "C09", ctx.py, ["rdscript", "librdengine"])
     ctx.assume("which step covers which requested time, interval boundaries and the number of steps performed are "
